@@ -16,7 +16,8 @@ RULE = ('two families. (call) pretty_call / pretty_call_alt invoked with: callab
         'argument printed alone; evaluation with a recording callable yields the given (args, kwargs) type-strictly. '
         '(class) generated dataclass / attrs definitions: 0-5 fields, names from the same pool, each with no default / '
         'default value / default factory (attrs: also takes_self; factories returning nested dataclass/attrs instances), repr '
-        'flag, frozen / slots variants, instance values (incl. nested dataclass/attrs instances, alone or inside lists and '
+        'flag, frozen / slots variants, ClassVar / InitVar pseudo-fields (ClassVar possibly re-assigned after the class was created), '
+        ' instance values (incl. nested dataclass/attrs instances, alone or inside lists and '
         'dicts) at or away from the default; sort_dict_keys on and off. Oracle: keyword names == those computed from the definition recipe (declaration order, '
         'repr enabled, no default or value != default); no fallback warning; when every hidden field is at its default, '
         'eval reconstructs an equal instance of the same class. Exhaustive: single-field definitions x every default kind '
@@ -123,6 +124,12 @@ def enumerate_cases(tier):
 
 
 def fixed_cases():
+    for pseudo in ([['classvar', 'count', ['int', 0], ['int', 2]]], [['classvar', 'cv', ['str', 'x'], None]], [['initvar', 'iv', ['int', 1], None]],
+                   [['classvar', 'registry', ['none'], ['str', 'changed']], ['initvar', 'iv', ['int', 0], None]]):
+        for slots in (False, True):
+            yield {'kind': 'class', 'lib': 'dc', 'frozen': False, 'slots': slots, 'width': 79, 'indent': 4, 'pseudo': pseudo,
+                   'fields': [{'name': 'a', 'default': ['none'], 'repr': True, 'value': ['int', 1]},
+                              {'name': 'b', 'default': ['val', ['int', 3]], 'repr': True, 'value': 'default'}]}
     yield {'kind': 'class', 'lib': 'dc', 'frozen': False, 'slots': False, 'width': 79, 'indent': 4,      # D15
            'fields': [{'name': 'fn', 'default': ['none'], 'repr': True, 'value': ['int', 1]},
                       {'name': 'ctx', 'default': ['none'], 'repr': True, 'value': ['int', 2]},
@@ -160,9 +167,12 @@ def strategy(tier):
     field = st.fixed_dictionaries({
         'name': st.sampled_from(FIELD_POOL), 'default': default, 'repr': st.sampled_from([True, True, True, False]),
         'value': st.one_of(st.just('default'), st.just('default'), small)})
+    scalar = st.one_of(S['r_int'], S['r_str'], S['r_const'])
+    pseudo = st.lists(st.tuples(st.sampled_from(['classvar', 'classvar', 'initvar']), st.sampled_from(['registry', 'count', 'cv', 'iv']),
+                                scalar, st.one_of(st.none(), scalar)).map(list), max_size=2, unique_by=lambda p: p[1])
     cls = st.fixed_dictionaries({
         'kind': st.just('class'), 'lib': st.sampled_from(['dc', 'attrs']), 'frozen': st.booleans(), 'slots': st.booleans(),
-        'fields': st.lists(field, max_size=5, unique_by=lambda f: f['name']),
+        'fields': st.lists(field, max_size=5, unique_by=lambda f: f['name']), 'pseudo': pseudo,
         'width': st.one_of(st.integers(1, 100), st.just(79)), 'indent': st.sampled_from([2, 4]), 'sort': st.booleans()})
     return st.one_of(call_alt, call_plain, cls, cls)
 
@@ -259,11 +269,13 @@ def make_class(case):
     """-> (cls, ordered field recipes); classes are cached by definition hash"""
     from .. import dyn
     fields = _order_fields(case['fields'])
-    key = json.dumps([case['lib'], case['frozen'], case['slots'], [[f['name'], f['default'], f['repr']] for f in fields]], sort_keys=True)
+    pseudo = case.get('pseudo') or []      # dataclasses only: [kind 'classvar'|'initvar', name, default recipe, changed-to recipe or None]
+    key = json.dumps([case['lib'], case['frozen'], case['slots'], [[f['name'], f['default'], f['repr']] for f in fields], pseudo], sort_keys=True)
     name = 'K' + hashlib.blake2b(key.encode(), digest_size=6).hexdigest()
     cls = getattr(dyn, name, None)
     if cls is not None:
         return cls, fields
+    built_defaults = {}
     if case['lib'] == 'dc':
         import dataclasses
         specs = []
@@ -273,6 +285,7 @@ def make_class(case):
                 fld = dataclasses.field(repr=f['repr'])
             elif d[0] == 'val':
                 dv = values.build(d[1])
+                built_defaults[f['name']] = dv
                 if isinstance(dv, (list, dict, set)):
                     fld = dataclasses.field(default_factory=(lambda dv=dv: type(dv)(dv)), repr=f['repr'])
                 else:
@@ -282,7 +295,22 @@ def make_class(case):
             else:   # facself does not exist for dataclasses: plain factory
                 fld = dataclasses.field(default_factory=FACTORIES['seven'], repr=f['repr'])
             specs.append((f['name'], object, fld))
+        import typing
+        used = {f['name'] for f in fields}
+        changed = []
+        for kind, pname, dflt, chg in pseudo:
+            if pname in used:
+                continue
+            used.add(pname)
+            if kind == 'classvar':
+                specs.append((pname, typing.ClassVar[object], dataclasses.field(default=values.build(dflt))))
+                if chg is not None:
+                    changed.append((pname, values.build(chg)))
+            else:
+                specs.append((pname, dataclasses.InitVar[object], dataclasses.field(default=values.build(dflt))))
         cls = dataclasses.make_dataclass(name, specs, frozen=case['frozen'], slots=case['slots'])
+        for pname, val in changed:
+            setattr(cls, pname, val)      # e.g. an instance counter or registry bumped after the class was defined
     else:
         import attr
         attrs = {}
@@ -292,6 +320,7 @@ def make_class(case):
                 attrs[f['name']] = attr.ib(repr=f['repr'])
             elif d[0] == 'val':
                 dv = values.build(d[1])
+                built_defaults[f['name']] = dv
                 if isinstance(dv, (list, dict, set)):
                     attrs[f['name']] = attr.ib(factory=(lambda dv=dv: type(dv)(dv)), repr=f['repr'])
                 else:
@@ -303,14 +332,17 @@ def make_class(case):
         cls = attr.make_class(name, attrs, frozen=case['frozen'], slots=case['slots'])
     cls.__module__ = 'ppv.dyn'
     cls.__qualname__ = name
+    cls._ppv_defaults = built_defaults
     setattr(dyn, name, cls)
     return cls, fields
 
 
-def default_value(f, lib):
+def default_value(f, lib, cls=None):
     d = f['default']
     if d[0] == 'val':
-        return values.build(d[1])
+        # the very object the class holds (identity matters: nan, and containers sharing their elements)
+        dv = cls._ppv_defaults[f['name']] if cls is not None else values.build(d[1])
+        return type(dv)(dv) if isinstance(dv, (list, dict, set)) else dv
     if d[0] == 'fac':
         return FACTORIES[d[1]]()
     return 7
@@ -332,11 +364,11 @@ def oracle_class(case):
                 kwargs[f['name']] = None
                 val, given = None, True
             else:
-                val, given = default_value(f, case['lib']), False
+                val, given = default_value(f, case['lib'], cls), False
         else:
             val, given = values.build(f['value']), True
             kwargs[f['name']] = val
-        differs = (not has_default) or bool(default_value(f, case['lib']) != val)
+        differs = (not has_default) or bool(default_value(f, case['lib'], cls) != val)
         if f['repr'] and differs:
             expected.append(f['name'])
         elif differs:
